@@ -114,6 +114,10 @@ def check_passthrough(chk):
         views.append(('progress(%d)' % b, lambda t, b=b: etl.progress(t, b, out=_Null())))
         views.append(('progress(%d, prefix)' % b, lambda t, b=b: etl.progress(t, b, prefix='p: ', out=_Null())))
         views.append(('log_progress(%d)' % b, lambda t, b=b: etl.log_progress(t, b, logger=logging.getLogger('verif.null'))))
+    # prefixes with characters that are special to %-formatting / str.format, default batch size with a table beyond it
+    for pf in (u'10% done: ', u'%s %d %%', u'{0} {x}', u'\xe9\u4e2d: '):
+        views.append(('progress(2, prefix=%r)' % pf, lambda t, pf=pf: etl.progress(t, 2, prefix=pf, out=_Null())))
+        views.append(('log_progress(2, prefix=%r)' % pf, lambda t, pf=pf: etl.log_progress(t, 2, prefix=pf, logger=logging.getLogger('verif.null'))))
     logging.getLogger('verif.null').addHandler(logging.NullHandler())
     logging.getLogger('verif.null').propagate = False
     views.append(('clock', lambda t: etl.clock(t)))
@@ -142,6 +146,35 @@ def check_passthrough(chk):
                     break
 
 
+def check_passthrough_large(chk):
+    """Default batch sizes (1000) and cache limits on a table beyond them."""
+    import petl as etl
+    big = [['f', 'g']] + [[i, u'v%d' % i] for i in range(2500)]
+    want = [tuple(r) for r in big]
+    views = [('progress(default batch)', lambda: etl.progress(big, out=_Null())),
+             ('progress(default batch, prefix=%r)' % u'10% done: ', lambda: etl.progress(big, prefix=u'10% done: ', out=_Null())),
+             ('log_progress(default batch, prefix=%r)' % u'%s: ', lambda: etl.log_progress(big, prefix=u'%s: ', logger=logging.getLogger('verif.null'))),
+             ('progress(1000)', lambda: etl.progress(big, 1000, out=_Null())), ('progress(999)', lambda: etl.progress(big, 999, out=_Null())),
+             ('clock', lambda: etl.clock(big)), ('cache()', lambda: etl.wrap(big).cache()), ('cache(1000)', lambda: etl.wrap(big).cache(1000)),
+             ('cache(3000)', lambda: etl.wrap(big).cache(3000))]
+    for name, mk in views:
+        chk.count(('pass-large', name))
+        chk.replayed += 1
+        try:
+            v = mk()
+            passes = [[tuple(r) for r in v] for _ in range(3)]
+        except Exception as e:
+            chk.violation({'op': name.split('(')[0], 'kind': 'passthrough', 'clause': 'raises'}, '%s over a 2500-row table raised %r' % (name, e),
+                          {'kind': 'pass-large', 'name': name})
+            continue
+        for k, got in enumerate(passes):
+            if got != want:
+                chk.violation({'op': name.split('(')[0], 'kind': 'passthrough', 'clause': 'rows'},
+                              '%s over a 2500-row table: pass %d delivered %d rows (wrapped table: %d)' % (name, k + 1, len(got), len(want)),
+                              {'kind': 'pass-large', 'name': name})
+                break
+
+
 def run(tier, seed):
     chk = Check(PID, tier, seed)
     r = tlc.require_ok(tlc.run('FileStore', cfg='FileStore_ok', timeout=900), 'FileStore')
@@ -152,6 +185,7 @@ def run(tier, seed):
     with common.private_tmp() as tmp:
         check_tees(chk, tmp)
     check_passthrough(chk)
+    check_passthrough_large(chk)
     # V: tee traces through the recording source (same trace spec as C15)
     from harness import c15
     traces = [t for t in c15.record_traces(900 if tier == 'thorough' else 300, seed + 16) if t['op'] == 'tee']
